@@ -353,7 +353,8 @@ def observe(inv, ds, objs, I, sb, job, rq, S2):
         elif q in ("no_regularization_index_list", "mapper_edge_pixel_list"):
             rd["v"] = need(ints(list(getattr(inv, q))))
         elif q == "mapper_zero_pixel_list":
-            rd["v"] = [need(ints(x)) for x in inv.mapper_zero_pixel_list]
+            # one flat array over all mappers (since /repo 4a54374; before it was a list with one array per mapper)
+            rd["v"] = need(ints(np.concatenate([np.atleast_1d(np.asarray(x)) for x in inv.mapper_zero_pixel_list]) if len(inv.mapper_zero_pixel_list) else []))
         elif q == "mapping_matrix":
             rd["v"] = need(ints(inv.mapping_matrix))
         elif q == "operated_mapping_matrix":
